@@ -146,7 +146,7 @@ def gen_scenario(prng, tier, index, focus):
     if prng.random() < 0.3:
         sc["node_order"] = [prng.choice(("reversed", "shuffled", "edges_first")), prng.randrange(2 ** 31)]
     if prng.random() < 0.3:
-        sc["carry"] = [prng.randrange(2 ** 31), prng.choice((1, 2, 3, 5))]      # label permutation seed, accepted swaps on network B
+        sc["carry"] = [prng.randrange(2 ** 31), prng.choice((1, 2, 3, 5)), prng.choice(("same_size", "double"))]   # label permutation seed, accepted swaps on network B, size of B
     if prng.random() < 0.5:
         sc["chain"] = prng.choice((1, 1, 2, 3))     # accepted swaps of a second stage run on the first stage's result
     return sc
@@ -268,6 +268,11 @@ def run_history(sc, ctx, prefix, on_state, on_abort=None):
         perm = list(range(n))
         _r.Random(sc["carry"][0]).shuffle(perm)
         specB = dict(sc["spec"], motifs=[dict(m, verts=[perm[v] for v in m["verts"]]) for m in sc["spec"]["motifs"]])
+        if len(sc["carry"]) > 2 and sc["carry"][2] == "double":
+            # ... or TWO disjoint relabelled copies of it: the same classes (the target stays valid), twice the vertices and edges
+            perm2 = list(range(n))
+            _r.Random(sc["carry"][0] + 1).shuffle(perm2)
+            specB = dict(sc["spec"], n=2 * n, motifs=specB["motifs"] + [dict(m, verts=[n + perm2[v] for v in m["verts"]]) for m in sc["spec"]["motifs"]])
         try:
             netB = netsim.build_network(specB)
         except Exception as e:
@@ -288,7 +293,7 @@ def run_history(sc, ctx, prefix, on_state, on_abort=None):
             ctx.violate("C11.input", f"the second network given to one rewiring object (through its setter) was modified by rewire() (status={st})")
             return info
         if st == "ok" and isinstance(G3, nx.Graph):
-            on_state(info["states"], netB.G, G3, None, dict(info, G0=netB.G, net=netB, before=beforeB))
+            on_state(info["states"], netB.G, G3, None, dict(info, G0=netB.G, net=netB, before=beforeB, spec=specB))
         elif st not in ("ok", "budget"):
             ctx.violate(f"{P}.raised", f"rewire() on a second network given to the same object: {st} {describe_exc(G3) if st == 'raised' else ''}")
             return info
